@@ -139,6 +139,15 @@ def gen_scenario(seed, i):
             opts["__secret"] = mark
         ops.append(["act", rng.weighted([("next", 15), ("skip", 2), ("submit", 2)]), pid, {"open": rng.below(3)}, opts])
     ops.append(["runall"])
+    if i % 6 == 4:
+        # the process is dropped from the cache at quiescent points: what was written — also a write that reached two holders — comes
+        # back from the rows
+        out = []
+        for op in ops:
+            out.append(op)
+            if op[0] == "runall" and rng.chance(1, 2):
+                out.append(["evict", "p1"])
+        ops = out
     return {"id": f"c07-{seed}-{i}", "config": {"keep": True, "dump_each": True}, "models": [w], "ops": ops, "exprs": g.exprs, "two": two}
 
 
@@ -291,6 +300,43 @@ def run(ctx):
         else:
             stats["op_model_agree"] += 1
     ctx.sample({"scenario": scs[0]["id"], "model": scs[0]["models"][0], "ops": scs[0]["ops"][:6]}, limit=1)
+    # ---- free-running, several workers: the act behind an interrupt sees what the interrupt was answered with (its `if` reads it)
+    rscs = []
+    for k in range(4 if ctx.tier == "quick" else 24):
+        r = Rng(ctx.seed * 4093 + k)
+        v = r.range(2, 9)
+        holder = r.pick(["root", "step"])
+        w = {"id": "m1", "steps": [{"id": "s1", "acts": [{"id": "a1", "uses": gen.IRQ, "key": "k1"}, {"id": "a2", "uses": gen.IRQ, "key": "k2", "if": f"x == {v}"},
+                                                        {"id": "a3", "uses": gen.IRQ, "key": "k3", "if": f"x != {v}"}]}]}
+        if holder == "root":
+            w["inputs"], w["outputs"] = {"x": 1}, {"x": None}
+        else:
+            w["steps"][0]["inputs"] = {"x": 1}
+        npr = 40
+        ops = [["deploy", 0]] + [["start", "m1", {"pid": f"p{q}"}] for q in range(npr)] + [["sleep", 100]]
+        ops += [["act", "next", f"p{q}", {"nid": "a1", "k": -1}, {"x": v}] for q in range(npr)]
+        ops += [["sleep", 200]]
+        rscs.append({"id": f"c07-race-{k}", "config": {"keep": True, "mode": "free", "workers": r.pick([2, 4, 8]), "dump_each": False}, "models": [w], "ops": ops, "v": v})
+    rres = ctx.harness("run", [{k: v for k, v in sc.items() if k != "v"} for sc in rscs], tag="race", shards=2)
+    for sc, res in zip(rscs, rres):
+        ctx.cov["evaluations"] += 1
+        if res.get("panic") or res.get("crashed"):
+            ctx.violation("C07|engine-panic", f"engine panicked: {str(res.get('panic'))[:100]}", {"scenario": sc})
+            continue
+        nid_of, wrong = {}, []
+        for _, o in obs_of(res, {"new", "tr"}):
+            if o["k"] == "new":
+                nid_of[(o["pid"], o["tid"])] = o["nid"]
+            else:
+                nid = nid_of.get((o["pid"], o["tid"]))
+                if (nid == "a2" and o["new"] == "skipped") or (nid == "a3" and o["new"] == "interrupted"):
+                    wrong.append((o["pid"], nid, o["new"]))
+        stats["race_processes"] = stats.get("race_processes", 0) + sum(1 for n_ in nid_of.values() if n_ == "a1")
+        if wrong:
+            ctx.violation("C07|successor-read-before-write", f"a1 was completed with x = {sc['v']}; in {len(wrong)} of the processes the act behind it evaluated its condition on the old value: {wrong[:3]} "
+                          f"({sc['config']['workers']} workers)", {"scenario": {k: v for k, v in sc.items() if k != "v"}})
+        else:
+            ctx.nontrivial(["race", sc["models"], sc["config"]["workers"]])
     ctx.cov["correspondence"] = {"distribution": stats, "streams_compared": ["data of every task, message inputs/outputs, terminal-event outputs vs Op model (which uses Scope.update / Scope.find)",
                                                                              "dump before/after every accepted action: frame, holder update, private keys, option cut", "two processes of one model: no value crosses"]}
     ctx.cov["rule"] = ("set/irq/msg workflows in which each of four names is declared by at most one enclosing scope at a random depth; writers: transform.set and client options cut to declared "
